@@ -99,7 +99,8 @@ def _args_for(fn, strings, decimal, extra):
 
 
 def _wire_query(url, params):
-    u = yarl.URL(url)
+    # aiohttp: URL(url) leaves a yarl.URL instance untouched (incl. one built with encoded=True) and parses a str
+    u = url if isinstance(url, yarl.URL) else yarl.URL(url)
     if params:
         u = u.update_query(params)
     return u, u.raw_query_string
@@ -149,7 +150,8 @@ def binance_endpoint(ctx, account="spot_account", method="query_order", tier="qu
     kw = _args_for(fn, gen, dec, lambda: {"newOrderRespType": gen("extra_kwarg")})
     run(fn(**kw))
     call = sess.calls[-1]
-    signed = call["params"] is not None and "signature" in (call["params"] or {})
+    url, raw_q = _wire_query(call["url_obj"], call["params"])
+    signed = any(p.startswith("signature=") for p in raw_q.split("&"))
     ctx.prove(call["headers"].get("X-MBX-APIKEY") == "the-key", "C16 binance: the API key accompanies the request",
               info=(account, method))
     if not signed:
@@ -159,7 +161,6 @@ def binance_endpoint(ctx, account="spot_account", method="query_order", tier="qu
             ctx.cover(lab)
         return
     ctx.cover("a signed binance request was checked")
-    url, raw_q = _wire_query(call["url"], call["params"])
     parts = raw_q.split("&")
     sig_parts = [p for p in parts if p.startswith("signature=")]
     wire_q = "&".join(p for p in parts if not p.startswith("signature="))
@@ -200,7 +201,7 @@ def bitstamp_endpoint(ctx, method="get_order_status", tier="quick"):
             ctx.prove(not rec.calls, "C16 bitstamp: public endpoints do not sign")
             continue
         ctx.cover("a signed bitstamp request was checked")
-        url = yarl.URL(call["url"])
+        url = call["url_obj"] if isinstance(call["url_obj"], yarl.URL) else yarl.URL(call["url_obj"])
         if call["params"]:
             url = url.update_query(call["params"])
         body = _wire_body(call["data"])
